@@ -48,6 +48,8 @@ type Build struct {
 	// by the documented value "true"; "false", "0" and "" do not ask for it
 	// (other truthy spellings are left alone: the documentation names "true" only).
 	WithOptional string `json:"with_optional"`
+	// OptFirst puts the withOptional pair in front of the other pairs.
+	OptFirst bool `json:"with_optional_first,omitempty"`
 }
 
 func (b Build) asked() bool { return b.WithOptional == "true" }
@@ -98,10 +100,13 @@ func expected(d model.Route, vals map[string]string, withOptional bool) string {
 
 func pairsOf(b Build) []string {
 	var out []string
+	if b.WithOptional != "-" && b.OptFirst {
+		out = append(out, "withOptional", b.WithOptional)
+	}
 	for _, kv := range b.Pairs {
 		out = append(out, kv[0], kv[1])
 	}
-	if b.WithOptional != "-" {
+	if b.WithOptional != "-" && !b.OptFirst {
 		out = append(out, "withOptional", b.WithOptional)
 	}
 	return out
@@ -194,9 +199,9 @@ func checkCase(c Case) evid.Outcome {
 	out := evid.Outcome{Sub: len(c.Builds) + len(c.Reqs)}
 	a, err := build(c)
 	if err != nil {
-		out.Excluded = 1
-		out.Classes = append(out.Classes, "registration-rejected")
-		return out
+		// every route of a case is one the router is obliged to accept, and the
+		// names are distinct
+		return evid.Fail("registration-panic", "registering and naming the routes panicked: %v; routes %s", err, js(c.Routes))
 	}
 	// ---- misuse must panic
 	switch c.Bad {
@@ -231,8 +236,24 @@ func checkCase(c Case) evid.Outcome {
 		}
 		want := expected(d, vals, b.asked())
 		got := a.f.URLPath(b.Name, pairsOf(b)...)
+		if want == "" && got == "/" {
+			// a route that consists of one optional segment, built without it: the
+			// request that used this form had the path "/", which is what comes
+			// back here; the implementation's "" is accepted as well (below)
+			got = ""
+		}
 		if got != want {
 			return evid.Fail("substitution", "URLPath(%q, %v) of route %q = %q, exact single-pass substitution gives %q", b.Name, pairsOf(b), d.Canon(), got, want)
+		}
+		// the caller's list of pairs is the caller's: building twice from one and
+		// the same slice (with room to spare behind it) gives the same URL and
+		// leaves the slice alone
+		orig := pairsOf(b)
+		shared := append(make([]string, 0, len(orig)+6), orig...)
+		first := a.f.URLPath(b.Name, shared...)
+		second := a.f.URLPath(b.Name, shared...)
+		if first != second || fmt.Sprintf("%q", shared) != fmt.Sprintf("%q", orig) {
+			return evid.Fail("pairs-mutated", "URLPath(%q, pairs...) twice with the same slice: %q then %q; the slice was %q and is now %q", b.Name, first, second, orig, shared)
 		}
 		// through the context
 		var viaCtx string
@@ -242,6 +263,9 @@ func checkCase(c Case) evid.Outcome {
 		a.probe = nil
 		if !ran {
 			return evid.Fail("probe", "probe handler did not run")
+		}
+		if want == "" && viaCtx == "/" {
+			viaCtx = ""
 		}
 		if viaCtx != want {
 			return evid.Fail("context-urlpath", "Context.URLPath(%q, %v) = %q, Router.URLPath gives %q", b.Name, pairsOf(b), viaCtx, want)
@@ -296,7 +320,7 @@ func checkCase(c Case) evid.Outcome {
 			gotURL[1] = ctx.URLPath(n, append(pairs, "withOptional", "true")...)
 		}
 		rec := httptest.NewRecorder()
-		a.f.ServeHTTP(rec, rt.NewRequest(q.M, q.P, nil))
+		a.f.ServeHTTP(rec, q.HTTP())
 		a.seen = nil
 		if name == "" {
 			out.Classes = append(out.Classes, "inverse-not-dispatched")
@@ -414,7 +438,7 @@ func genCase(t *rapid.T) Case {
 			_, b, _ := s.Classify()
 			binds = append(binds, b...)
 		}
-		b := Build{Name: r.Name, WithOptional: []string{"-", "-", "true", "true", "false", "", "0"}[rapid.IntRange(0, 6).Draw(t, "wo")]}
+		b := Build{Name: r.Name, WithOptional: []string{"-", "-", "true", "true", "false", "", "0"}[rapid.IntRange(0, 6).Draw(t, "wo")], OptFirst: rapid.Bool().Draw(t, "optfirst")}
 		for _, bn := range binds {
 			var v string
 			switch rapid.IntRange(0, 8).Draw(t, "vk") {
@@ -507,3 +531,8 @@ func TestReplay(t *testing.T) {
 }
 
 var _ = http.StatusOK
+
+func js(v interface{}) string {
+	b, _ := json.Marshal(v)
+	return string(b)
+}
